@@ -34,6 +34,13 @@ inductive Kind | document | element | attribute | text | comment | pi | namespac
 inductive NameTest | none | wild | name (n : Nat)
   deriving DecidableEq, Repr, Inhabited
 
+/-- type argument of an element / attribute test (no schema: only names of built-in types) -/
+inductive TyArg
+  | untyped                 -- xs:untyped
+  | anyType | anySimpleType -- xs:anyType, xs:anySimpleType
+  | atomic (t : Nat)        -- a builtin atomic type (xs:untypedAtomic, xs:anyAtomicType, xs:string …)
+  deriving DecidableEq, Repr, Inhabited
+
 /-- item types without nested sequence types -/
 inductive Leaf
   | item                               -- item()
@@ -44,6 +51,8 @@ inductive Leaf
   | anyType | anySimpleType            -- names in COMMON_SEQUENCE_TYPES that are no atomic types
   | kind (k : Kind) (nt : NameTest)    -- text() comment() element(..) attribute(..) processing-instruction(..)
                                        -- namespace-node() document-node()
+  | kindT (k : Kind) (nt : NameTest) (ta : TyArg) (opt : Bool)
+                                       -- element(N, T) element(N, T?) attribute(N, T): kind test with a type argument
   | docElem (nt : NameTest)            -- document-node(element(..))
   | funcAny | mapAny | arrayAny        -- function(*) map(*) array(*)
   deriving DecidableEq, Repr, Inhabited
@@ -148,6 +157,8 @@ structure Tables where
   anyURI : Nat
   /-- index of the Python class `int` in the value-class table (`match_sequence_type(1, index_type)`) -/
   intCls : Nat
+  /-- index of the class `UntypedAtomic`: the typed value of an element / attribute without schema -/
+  untypedCls : Nat
   deriving Repr
 
 def Tables.atomSub (tb : Tables) (a b : Nat) : Bool := (tb.subRows.getD a []).contains b
@@ -190,6 +201,9 @@ def Leaf.cls : Leaf → Cls
   | .kind .pi _ => .nodeK
   | .kind .document _ => .other      -- 'document-node(' does not start with 'document('
   | .kind .namespace _ => .other     -- 'namespace-node(' does not start with 'namespace('
+  | .kindT .element _ _ _ => .nodeK
+  | .kindT .attribute _ _ _ => .nodeK
+  | .kindT _ _ _ _ => .other
   | .docElem _ => .other
   | .numeric => .other
   | .funcAny => .funcAny
@@ -344,6 +358,13 @@ def matchLeaf (tb : Tables) (xsd11 strict : Bool) (l : Leaf) : Item → Res
   | .node k name kids _ =>
     match l with
     | .item => .ok true
+    | .kindT k' nt ta _ =>                                  -- l.352-372: `name, type_name = params.rsplit(', ', 1)`
+      if k' != k || !(k == .element || k == .attribute) then .ok false   -- l.331 / l.348
+      else match ta with
+        | .untyped => .ok (nameOK nt name)                  -- l.360-364: type_name of an untyped node is xs:untyped(Atomic)
+        | .atomic t =>                                      -- l.367 is_instance(v.typed_value, type_name): an UntypedAtomic
+          if instAtomic tb xsd11 tb.untypedCls t then .ok (nameOK nt name) else .ok false
+        | _ => .error .XPST0051                             -- xs:anyType / xs:anySimpleType: KeyError → l.370
     | l => .ok (matchLeafNode k name kids l)                -- numeric, function(*), map(*), array(*): isinstance is False
   | .atom c =>
     match l with
@@ -370,6 +391,12 @@ def matchLeaf (tb : Tables) (xsd11 strict : Bool) (l : Leaf) : Item → Res
 `sa → sr` against `function(a) as r` -/
 def funcItemTest (tb : Tables) (sa : Tys) (sr : Ty) (a : Tys) (r : Ty) : Bool :=
   sa.length == a.length && Tys.all2 (isRestriction tb) sa a && isRestriction tb r sr
+
+/-- `match_function_test(function_test, as_argument=True)` (functions.py l.330-331): used when a function item
+is passed to an inline function whose parameter is declared `function(a) as r` (`get_argument`,
+xpath30/_xpath30_functions.py l.120-123).  The parameter types are compared the other way round. -/
+def funcItemTestArg (tb : Tables) (sa : Tys) (sr : Ty) (a : Tys) (r : Ty) : Bool :=
+  sa.length == a.length && Tys.all2 (isRestriction tb) a sa && isRestriction tb r sr
 
 def endsPlusStar (t : Ty) : Bool := t.last == .plus || t.last == .star
 
@@ -436,6 +463,21 @@ def instItemTok (tb : Tables) (xsd11 : Bool) (t : Ty) (x : Item) : Res :=
   | .leaf .arrayAny _ => matchSt tb xsd11 true (.leaf .arrayAny .one) [x]
   | .map k v _ => matchSt tb xsd11 true (.map k v .one) [x]
   | .array m _ => matchSt tb xsd11 true (.array m .one) [x]
+  | .leaf (.kindT k' nt ta _) _ =>
+    match x with
+    | .node k name kids root =>
+      (match k' with
+       | .element =>                                        -- select__element_kind_test with two arguments
+         if k == .element && nameOK nt name then
+           (match ta with
+            | .untyped => .ok (nt != .wild)                 -- `elif self[0].symbol != '*': yield item`
+            | .atomic t => .ok (instAtomic tb xsd11 tb.untypedCls t)
+            | _ => .error .XPST0051)
+         else .ok false
+       | .attribute =>                                      -- without a schema the type argument is ignored
+         .ok (instLeafNode k name kids root (.kind .attribute nt))
+       | _ => .ok false)
+    | _ => .ok false
   | .leaf l _ =>
     match x with
     | .node k name kids root => .ok (instLeafNode k name kids root l)
@@ -504,9 +546,10 @@ def treatAs (tb : Tables) (xsd11 : Bool) (t : Ty) (v : List Item) : Except Err (
 
 /-! ## partial application of function items, and judgement histories
 
-`$f(?, 1, 2)` (xpath30/_xpath30_operators.py l.108-117): `func = copy(func); func[:] = tokens;
-func.to_partial_function()` — the arity becomes the number of placeholders, `sequence_types` is unchanged,
-and `match_function_test` (functions.py l.318) reads the signature as `sequence_types[:arity] + [sequence_types[-1]]`. -/
+`$f(?, 1, 2)` (xpath30/_xpath30_operators.py evaluate__parenthesized_expression): the new function item is a copy
+with its own argument list in which the placeholders stay in place (`func._items = ...`), `to_partial_function`
+sets `nargs` to the number of placeholders, and `match_function_test` (functions.py, with the `fix:` of branch
+fix-c18-2) reads the open parameters as `[st for st, tk in zip(sequence_types, _items) if tk is a placeholder]`. -/
 
 /-- the parameters at the placeholder positions (`true` = `?`): the signature of a partial application
 according to XPath 3.1 §3.1.6 ("the parameters … corresponding to placeholders, in order") -/
@@ -523,18 +566,16 @@ def Tys.take : Nat → Tys → Tys
 /-- specification: the parameter types of `f(mask)` -/
 def partialSig (a : Tys) (mask : List Bool) : Tys := a.pick mask
 
-/-- what the code uses: the first `arity` parameter types, `arity` = number of placeholders -/
-def implPartialArgs (a : Tys) (mask : List Bool) : Tys := a.take (mask.count true)
-
-/-- the placeholders come first (`f(?, ?, 1)`): there the two coincide; elsewhere finding F18q -/
+/-- the placeholders come first (`f(?, ?, 1)`) -/
 def prefixMask : List Bool → Bool
   | [] => true
   | true :: m => prefixMask m
   | false :: m => m.all (fun b => !b)
 
-/-- the function item produced by a partial application, as the code types it -/
+/-- the function item produced by a partial application (`zip(sequence_types, _items)` filtered by the
+placeholders = `Tys.pick`) -/
 def Item.partialApply (mask : List Bool) : Item → Item
-  | .func a r => .func (implPartialArgs a mask) r
+  | .func a r => .func (a.pick mask) r
   | x => x
 
 /-- the function item produced by a partial application, as XPath types it -/
@@ -547,6 +588,7 @@ inductive HOp
   | jMatch (i : Nat) (t : Ty)          -- match_sequence_type(pool[i], t)
   | jInst (i : Nat) (t : Ty)           -- pool[i] instance of t
   | jTreat (i : Nat) (t : Ty)          -- pool[i] treat as t
+  | jArg (i : Nat) (t : Ty)            -- function($g as t) { true() }(pool[i])   (T = accepted, F = XPTY0004)
   | papp (i : Nat) (mask : List Bool)      -- pool.append(pool[i](mask))
 
 def HOp.isPartial : HOp → Bool
@@ -558,6 +600,9 @@ def hStep (tb : Tables) (xsd11 : Bool) (pool : List Item) : HOp → List Item ×
   | .jInst i t => (pool, some (instanceOf tb xsd11 t [pool.getD i default]))
   | .jTreat i t => (pool, some (match treatAs tb xsd11 t [pool.getD i default] with
       | .ok _ => .ok true | .error .XPDY0050 => .ok false | .error e => .error e))
+  | .jArg i t => (pool, some (match pool.getD i default, t with
+      | .func sa sr, .func a r => .ok (funcItemTestArg tb sa sr a r)
+      | x, t => matchSt tb xsd11 true t [x]))          -- function(*) / maps / arrays / other items: the ordinary test
   | .papp i mask => (pool ++ [(pool.getD i default).partialApply mask], none)
 
 def hRun (tb : Tables) (xsd11 : Bool) : List Item → List HOp → List (Option Res)
@@ -574,20 +619,94 @@ def hPoolSpec : List Item → List HOp → List Item
   | pool, .papp i mask :: ops => hPoolSpec (pool ++ [(pool.getD i default).partialApplySpec mask]) ops
   | pool, _ :: ops => hPoolSpec pool ops
 
-/-- trigger of F18q per pool item: it was derived (directly or not) through a mask that is no prefix mask -/
-def hTainted : List Bool → List HOp → List Bool
-  | fl, [] => fl
-  | fl, .papp i mask :: ops => hTainted (fl ++ [fl.getD i false || !prefixMask mask]) ops
-  | fl, _ :: ops => hTainted fl ops
+/-! ## the text of a type and the string-level splitting of a typed function test
 
-/-- trigger of F18r: the judged item is the base item (pool position 0), it is an inline function (its
-`nargs` is `None`, so its arity is `len(self._items)`), and an earlier partial application in the history
-was written with a number of arguments different from the base arity (i.e. it was applied to a derived
-item): `func = copy(func); func[:] = tokens` assigns into the `_items` list that the shallow copies share -/
-def trigF18r (inlineBase : Bool) (baseArity : Nat) (before : List HOp) (i : Nat) : Bool :=
-  inlineBase && i == 0 && before.any (fun op => match op with
-    | .papp _ m => m.length != baseArity
-    | _ => false)
+`is_sequence_type_restriction` (l.116-119) and `helpers.split_function_test` do not parse: they cut the normalised
+text with `st[9:].partition(') as ')` and `.split(', ')`.  The text is modelled as a list of tokens in which the
+two separators the code looks for are tokens of their own; every other token is a `piece` of text that contains
+neither (names, `function(`, `map(xs:string`, `)`, `)*`, `item()?` …).  The driver prints `Ty.text`, the harness
+compares it with the real normalised string and compares `pySplit` with the real `split_function_test`. -/
+
+inductive Tok
+  | piece (s : String)
+  | comma            -- ', '
+  | closeAs          -- ') as '
+  deriving DecidableEq, Repr
+
+def Tok.text : Tok → String
+  | .piece s => s
+  | .comma => ", "
+  | .closeAs => ") as "
+
+def Tok.isSep : Tok → Bool
+  | .piece _ => false
+  | _ => true
+
+def Occ.text : Occ → String
+  | .one => "" | .opt => "?" | .star => "*" | .plus => "+"
+
+def NameTest.text : NameTest → String
+  | .none => "" | .wild => "*" | .name n => s!"n{n}"
+
+def Kind.str : Kind → String
+  | .document => "document-node" | .element => "element" | .attribute => "attribute" | .text => "text"
+  | .comment => "comment" | .pi => "processing-instruction" | .namespace => "namespace-node"
+
+/-- the text of a leaf item type; `nm` / `ln` give the names of the atomic / list types of the generated tables -/
+def TyArg.text (nm : Nat → String) : TyArg → String
+  | .untyped => "xs:untyped" | .anyType => "xs:anyType" | .anySimpleType => "xs:anySimpleType" | .atomic t => nm t
+
+def Leaf.text (nm ln : Nat → String) : Leaf → String
+  | .item => "item()" | .anyNode => "node()" | .atomic a => nm a | .numeric => "xs:numeric" | .listT l => ln l
+  | .anyType => "xs:anyType" | .anySimpleType => "xs:anySimpleType"
+  | .kind k nt => k.str ++ "(" ++ nt.text ++ ")"
+  | .kindT k nt _ _ => k.str ++ "(" ++ nt.text          -- the part before the ', ' (see `Ty.render`)
+  | .docElem nt => "document-node(element(" ++ nt.text ++ "))"
+  | .funcAny => "function(*)" | .mapAny => "map(*)" | .arrayAny => "array(*)"
+
+mutual
+/-- the normalised text of a type as tokens -/
+def Ty.render (nm ln : Nat → String) : Ty → List Tok
+  | .empty => [.piece "empty-sequence()"]
+  | .leaf (.kindT k nt ta opt) o =>
+    [.piece (k.str ++ "(" ++ nt.text), .comma, .piece (ta.text nm ++ (if opt then "?" else "") ++ ")" ++ o.text)]
+  | .leaf l o => [.piece (l.text nm ln ++ o.text)]
+  | .func a r => .piece "function(" :: (a.renderArgs nm ln ++ (.closeAs :: r.render nm ln))
+  | .map k v o => .piece ("map(" ++ nm k) :: .comma :: (v.render nm ln ++ [.piece (")" ++ o.text)])
+  | .array m o => .piece "array(" :: (m.render nm ln ++ [.piece (")" ++ o.text)])
+/-- the arguments joined with `', '` -/
+def Tys.renderArgs (nm ln : Nat → String) : Tys → List Tok
+  | .nil => []
+  | .cons a as => match as with
+    | .nil => a.render nm ln
+    | .cons _ _ => a.render nm ln ++ (.comma :: as.renderArgs nm ln)
+end
+
+def Ty.text (nm ln : Nat → String) (t : Ty) : String := String.join ((t.render nm ln).map Tok.text)
+
+/-- `s.partition(') as ')`: the text before the first `') as '` and the text after it -/
+def partitionCloseAs : List Tok → List Tok × List Tok
+  | [] => ([], [])
+  | .closeAs :: r => ([], r)
+  | t :: r => (t :: (partitionCloseAs r).1, (partitionCloseAs r).2)
+
+/-- `s.split(', ')` -/
+def splitComma : List Tok → List (List Tok)
+  | [] => [[]]
+  | .comma :: r => [] :: splitComma r
+  | t :: r => match splitComma r with
+    | p :: ps => (t :: p) :: ps
+    | [] => [[t]]
+
+/-- what l.116-119 extract from the text of a typed function test: `st[9:].partition(') as ')`, then
+`.split(', ')` of the first part -/
+def pySplit (st : List Tok) : List (List Tok) × List Tok :=
+  (splitComma (partitionCloseAs st.tail).1, (partitionCloseAs st.tail).2)
+
+/-- what the AST says the pieces are (`''.split(', ')` is `['']`) -/
+def Tys.argTexts (nm ln : Nat → String) : Tys → List (List Tok)
+  | .nil => [[]]
+  | .cons a as => a.render nm ln :: (match as with | .nil => [] | .cons _ _ => as.argTexts nm ln)
 
 /-! ## decidable regions: where the AST reading and the string-driven code agree by construction,
 the domain of the specification, and the trigger predicates of the known findings -/
@@ -596,6 +715,7 @@ mutual
 /-- no typed function test and no typed map test anywhere: the text contains neither `', '` nor `') as '` -/
 def Ty.simple : Ty → Bool
   | .empty => true
+  | .leaf (.kindT _ _ _ _) _ => false       -- 'element(n, T)' contains ', '
   | .leaf _ _ => true
   | .func _ _ => false
   | .map _ _ _ => false
@@ -615,8 +735,54 @@ def Ty.flat : Ty → Bool
   | .map _ v _ => v.flat
   | .array m _ => m.flat
 
+/-- every argument of the (top-level) typed function test is `simple` or is itself a typed function test with
+`simple` arguments and a `simple` return type: the shape of the higher-order functions of the library -/
+def Tys.allSimpleOrFunc : Tys → Bool
+  | .nil => true
+  | .cons a as => (a.simple || (match a with
+      | .func a' r' => a'.allSimple && r'.simple
+      | _ => false)) && as.allSimpleOrFunc
+
+def Ty.hof1 : Ty → Bool
+  | .func a r => a.allSimpleOrFunc && r.flat
+  | _ => false
+
+def Leaf.hasTypeArg' : Leaf → Bool
+  | .kindT _ _ _ _ => true | _ => false
+
+/-- the leaf is inside the domain of the specification comparison `match_eq_spec` -/
 def Leaf.isAtomicName : Leaf → Bool
-  | .listT _ => false | .anyType => false | .anySimpleType => false | _ => true
+  | .listT _ => false | .anyType => false | .anySimpleType => false | .kindT _ _ _ _ => false | _ => true
+
+mutual
+/-- the specification assigns a meaning to the type: no xs:anyType / xs:anySimpleType / list type *name* used as
+an item type (kind tests with a type argument are fine) -/
+def Ty.specDefined : Ty → Bool
+  | .empty => true
+  | .leaf l _ => l.isAtomicName || l.hasTypeArg'
+  | .func a r => a.allSpecDefined && r.specDefined
+  | .map _ v _ => v.specDefined
+  | .array m _ => m.specDefined
+def Tys.allSpecDefined : Tys → Bool
+  | .nil => true
+  | .cons a as => a.specDefined && as.allSpecDefined
+end
+
+def Leaf.hasTypeArg : Leaf → Bool
+  | .kindT _ _ _ _ => true | _ => false
+
+mutual
+/-- trigger of F18k: the type contains a kind test with a type argument -/
+def Ty.hasTypeArg : Ty → Bool
+  | .empty => false
+  | .leaf l _ => l.hasTypeArg
+  | .func a r => a.anyTypeArg || r.hasTypeArg
+  | .map _ v _ => v.hasTypeArg
+  | .array m _ => m.hasTypeArg
+def Tys.anyTypeArg : Tys → Bool
+  | .nil => false
+  | .cons a as => a.hasTypeArg || as.anyTypeArg
+end
 
 mutual
 /-- no xs:anyType / xs:anySimpleType / list type name anywhere (they are static errors XPST0051 for the
@@ -670,7 +836,7 @@ def trigF18d (t : Ty) (v : List Item) : Bool :=
   | _ => false
 
 def Leaf.isKindTest : Leaf → Bool
-  | .kind _ _ => true | .docElem _ => true | _ => false
+  | .kind _ _ => true | .kindT _ _ _ _ => true | .docElem _ => true | _ => false
 
 /-- the text contains `function(` -/
 def Ty.mentionsFunc : Ty → Bool
@@ -694,6 +860,7 @@ def Ty.gapAt (member arr infunc : Bool) : Ty → Bool
   | .leaf l o =>
     (match l with
      | .kind .attribute _ => member || infunc
+     | .kindT _ _ _ _ => member || infunc      -- a kind test with a type argument nested in array / map / function tests
      | .kind .namespace _ => infunc
      | .kind .pi (.name _) => infunc
      | _ => false)
